@@ -163,6 +163,9 @@ func (r *Report) checkLock() {
 
 func (r *Report) finish(wall float64, writeEvidence bool) int {
 	code := 0
+	for _, rb := range r.v.rebound {
+		fmt.Println("REBOUND:", rb)
+	}
 	if len(r.broken) > 0 {
 		for _, b := range r.broken {
 			fmt.Println("BROKEN:", b)
@@ -232,6 +235,9 @@ func (r *Report) writeEvidence(wall float64, nViol int) {
 		}
 		for k := range fr.fx.unspecCallees {
 			unspec[k] = true
+		}
+		for k := range fr.fx.inlinedHelpers {
+			notes = append(notes, "helper without contract, new since locals.lock was written, executed in place in "+fr.name+" (no runtime-panic obligations inside it): "+k)
 		}
 		for k := range fr.fx.externUsed {
 			ext[k] = true
@@ -306,6 +312,9 @@ func (r *Report) writeEvidence(wall float64, nViol int) {
 		assumptions = append(assumptions, "unspecified callee/construct (result unconstrained, reachable heap havocked): "+k)
 	}
 	assumptions = append(assumptions, notes...)
+	for _, rb := range r.v.rebound {
+		assumptions = append(assumptions, "renamed variable rebound (obligations still generated from the current code): "+rb)
+	}
 	if overflowOff > 0 {
 		assumptions = append(assumptions, fmt.Sprintf("%d function(s) verified with signed overflow wrapping instead of overflow obligations", overflowOff))
 	}
